@@ -574,3 +574,7 @@ mod tests {
         assert_eq!(iter.next(), None);
     }
 }
+
+// verification hook: harness text lives outside the repository (see MANIFEST.hooks)
+#[cfg(any(kani, sudachi_verif))]
+include!(concat!(env!("SUDACHI_VERIF_DIR"), "/dic__character_category.rs"));
